@@ -418,6 +418,29 @@ def r3(k: Kit) -> None:
                       'verify result depends on seq, packet and sig',
                       'MAC.verify result ignores seq, packet or sig',
                       k.loc(vf, vf.node))
+            # the expected tag must be computed independently of the
+            # received one (no truncation to len(sig), no early accept)
+            for x in vrets:
+                v = x.ast.value
+                cmp_args = None
+                if is_call(v, 'compare_digest') and len(v.args) == 2:
+                    cmp_args = v.args
+                elif isinstance(v, ast.Compare) and len(v.ops) == 1 and \
+                        isinstance(v.ops[0], ast.Eq):
+                    cmp_args = [v.left, v.comparators[0]]
+                okc = False
+                if cmp_args is not None:
+                    for a, b in (cmp_args, cmp_args[::-1]):
+                        if dotted(b) == 'sig' and 'sig' not in depends_on(
+                                vg, vrd, x.id, a):
+                            okc = True
+                rep.check(okc, 'C01.R3',
+                          key(vf, 'expected tag independent of received tag'),
+                          'full expected tag compared with the received tag',
+                          'the expected MAC is derived from / truncated to '
+                          'the received tag (a short or empty tag verifies), '
+                          'or the result is not a tag comparison',
+                          k.loc(vf, x))
     rep.floor('C01.R3', 'MAC classes', m, 2)
     # chacha shim: nonce reaches poly1305_verify and chacha20
     cc = k.func('crypto.chacha.ChachaCipher.verify_and_decrypt')
